@@ -70,8 +70,37 @@ def run_case(ch: Any, seed: int, retries: int) -> dict[str, Any]:
         gw.on_diag_out = lambda f: asyncio.ensure_future(serve(bytes(f["d"])))
         with patched_connections(gw.listener):
             from gallia.transports.doip import DoIPTransport
+            from harness.c06_doip import classify_exc
 
-            tr = await DoIPTransport.connect(uri(act=0))
+            class TracedDoIP(DoIPTransport, scheme="doip"):
+                """Real transport; only adds Begin/End records around write()/read() for the DoipContract monitor."""
+
+                async def write(self, data: bytes, timeout: float | None = None, tags: list[str] | None = None) -> int:
+                    rec.add("Begin", op="write", tmo=-1 if timeout is None else int(round(timeout * 1000)), d=list(data))
+                    res = "ok"
+                    try:
+                        return await super().write(data, timeout, tags)
+                    except BaseException as e:  # noqa: BLE001
+                        res = classify_exc(e)
+                        raise
+                    finally:
+                        rec.add("End", op="write", res=res, d=[])
+
+                async def read(self, timeout: float | None = None, tags: list[str] | None = None) -> bytes:
+                    rec.add("Begin", op="read", tmo=-1 if timeout is None else int(round(timeout * 1000)), d=[])
+                    res, d = "ok", b""
+                    try:
+                        d = await super().read(timeout, tags)
+                        return d
+                    except BaseException as e:  # noqa: BLE001
+                        res = classify_exc(e)
+                        raise
+                    finally:
+                        rec.add("End", op="read", res=res, d=list(d))
+
+            rec.add("Begin", op="connect", tmo=-1, d=[])
+            tr = await TracedDoIP.connect(uri(act=0))
+            rec.add("End", op="connect", res="ok", d=[])
             ecu = ECU(tr, timeout=1.0, max_retry=retries)
             for i, req in enumerate(REQUESTS, 1):
                 cur["i"] = i
